@@ -146,6 +146,7 @@ Definition macro_sig (m : macro_id) : msig :=
   | M_all => {| ms_name := `"mall"; ms_params := [(`"a", TI64)]; ms_opts := [(`"k", TI64, VI64 1)] |}
   | M_ret_i => {| ms_name := `"m_ret_i"; ms_params := [(`"x", TI64)]; ms_opts := [] |}
   | M_ret_b => {| ms_name := `"m_ret_b"; ms_params := [(`"x", TJson)]; ms_opts := [] |}
+  | M_ret_j => {| ms_name := `"m_ret_j"; ms_params := [(`"x", TJson)]; ms_opts := [] |}
   end.
 
 Definition json_of_i64 (z : Z) : json :=
@@ -181,5 +182,6 @@ Definition macro_body (m : macro_id) (ps os : list mval) (args : list json)
                    ++ `":" ++ nat_dec (length kwargs))
   | M_ret_i, [VI64 x], _ => json_of_i64 x
   | M_ret_b, [VJson x], _ => JBool (match x with JStr _ => true | _ => false end)
+  | M_ret_j, [VJson x], _ => x          (* typed result of every JSON kind, null included *)
   | _, _, _ => JNull
   end.
